@@ -83,6 +83,8 @@ type Mismatch struct {
 	Observed c08.Obs     `json:"observed"`
 	Diff     *c08.Diff   `json:"sharedStateDiff,omitempty"`
 	What     string      `json:"what"`
+	// Kind "solo": the program in the JSON form of the trace spec
+	Prog map[string]interface{} `json:"prog,omitempty"`
 }
 
 // SoloRender is a render run alone on a fresh bundle, kept so that TLC can
@@ -93,6 +95,9 @@ type SoloRender struct {
 	Obs   c08.Obs                `json:"obs"`
 	Files []core.File            `json:"files"`
 	Diff  *c08.Diff              `json:"sharedStateDiff,omitempty"` // what the render changed in its fresh bundle
+	// for the replay case
+	Inputs *c08.Inputs `json:"inputs,omitempty"`
+	Case   Case        `json:"case"`
 }
 
 // ChildOutput is the result of a child.
@@ -412,7 +417,7 @@ func (c *child) randomForced() {
 			q := *p
 			q.Entry, q.Data = rc.Entry, rc.Data
 			pj, _ := c08.ProgJSON(&q, &cfg)
-			c.out.Solo = append(c.out.Solo, SoloRender{cfg, pj, fresh[ops[i].Key()], in.Files, muts[ops[i].Key()]})
+			c.out.Solo = append(c.out.Solo, SoloRender{cfg, pj, fresh[ops[i].Key()], in.Files, muts[ops[i].Key()], in, Case{ops[i].T, ops[i].D}})
 		}
 		for _, d := range runs {
 			for gi := range d.cases {
@@ -589,8 +594,10 @@ func (c *child) stress() {
 			c.toolErr("%v", err)
 		}
 	}
-	c.compileStress(r, G, R/10+1)
-	c.attribute(&Mismatch{Kind: "stress-compile", Family: "race-detector", What: "concurrent compilation of independent bundles"}, nil)
+	if c.in.StressBundles > 0 {
+		c.compileStress(r, G, R/10+1)
+		c.attribute(&Mismatch{Kind: "stress-compile", Family: "race-detector", What: "concurrent compilation of independent bundles"}, nil)
+	}
 }
 
 // Op8 is c08's operation type.
@@ -666,6 +673,15 @@ func (c *child) replay(m *Mismatch) {
 	}
 	defer restore()
 	switch m.Kind {
+	case "solo":
+		op := Op8{Op: "render", T: m.Case.T, D: m.Case.D}
+		fresh, muts, err := c08.FreshOutcomesDiff(m.Inputs, []Op8{op}, true)
+		if err != nil {
+			c.toolErr("%v", err)
+			return
+		}
+		c.out.Renders++
+		c.out.Solo = append(c.out.Solo, SoloRender{m.Cfg, m.Prog, fresh[op.Key()], m.Inputs.Files, muts[op.Key()], m.Inputs, m.Case})
 	case "forced":
 		inst, obs, run, err := runForced(m.Inputs, m.Cases, m.Schedule, nil)
 		if err != nil {
